@@ -177,10 +177,11 @@ type modAnalysis struct {
 	keyTypes map[string]types.Type
 	results  map[*ssa.Function][]resKind // per result: fresh / alias of parameter / unknown
 	escapes  map[*ssa.Function]*escapeInfo
+	keyFids  map[string]int
 }
 
 func (w *world) computeModsets() *modAnalysis {
-	ma := &modAnalysis{w: w, c: newSMT(w), sets: map[*ssa.Function]*modset{}, keyTypes: map[string]types.Type{}, results: map[*ssa.Function][]resKind{}}
+	ma := &modAnalysis{w: w, c: newSMT(w), sets: map[*ssa.Function]*modset{}, keyTypes: map[string]types.Type{}, results: map[*ssa.Function][]resKind{}, keyFids: map[string]int{}}
 	var fns []*ssa.Function
 	for _, n := range sortedKeys(w.funcs) {
 		fns = append(fns, w.funcs[n])
@@ -417,31 +418,48 @@ func (ma *modAnalysis) recordStore(ms *modset, st *ssa.Store, addr ssa.Value, t 
 		localObj = true
 	}
 	for _, lf := range ma.c.leaves(t) {
-		key := ma.cellKey(lf.typ)
-		if kind == rFresh {
-			ms.fresh[key] = true
-			continue
-		}
-		sh := ms.shape(key)
-		if localObj {
-			sh.objs[root] = true
-		} else {
-			sh.nonObj = true
-		}
+		// which array(s) the written cell lives in
+		var keys []string
+		elem, objc := false, false
 		if len(lf.fids) > 0 {
-			sh.fids[lf.fids[len(lf.fids)-1]] = true
-			continue
+			keys = []string{ma.fieldKey(lf.fids[len(lf.fids)-1])}
+		} else {
+			switch a := addr.(type) {
+			case *ssa.FieldAddr:
+				st := a.X.Type().Underlying().(*types.Pointer).Elem()
+				keys = []string{ma.fieldKey(ma.w.fieldID(st, a.Field))}
+			case *ssa.IndexAddr:
+				keys, elem = []string{ma.cellKey(lf.typ)}, true
+			case *ssa.Alloc:
+				keys, objc = []string{ma.cellKey(lf.typ)}, true
+			default:
+				for _, fid := range ma.c.candidateFieldKeys(lf.typ) {
+					keys = append(keys, ma.fieldKey(fid))
+				}
+				keys = append(keys, ma.cellKey(lf.typ))
+			}
 		}
-		switch a := addr.(type) {
-		case *ssa.FieldAddr:
-			st := a.X.Type().Underlying().(*types.Pointer).Elem()
-			sh.fids[ma.w.fieldID(st, a.Field)] = true
-		case *ssa.IndexAddr:
-			sh.elem = true
-		case *ssa.Alloc:
-			sh.obj = true
-		default:
-			sh.any = true
+		for _, key := range keys {
+			if kind == rFresh {
+				ms.fresh[key] = true
+				continue
+			}
+			sh := ms.shape(key)
+			if localObj {
+				sh.objs[root] = true
+			} else {
+				sh.nonObj = true
+			}
+			switch {
+			case strings.HasPrefix(key, "F_"):
+				sh.any = true // the whole field array gets a new version
+			case elem:
+				sh.elem = true
+			case objc:
+				sh.obj = true
+			default:
+				sh.any = true
+			}
 		}
 	}
 }
@@ -500,7 +518,7 @@ func (ma *modAnalysis) mergeCallee(ms *modset, cs *modset, call *ssa.CallCommon,
 		sh.elem = sh.elem || s.elem
 		sh.obj = sh.obj || s.obj
 		sh.any = sh.any || s.any
-		if strings.HasPrefix(k, "H_") {
+		if strings.HasPrefix(k, "H_") || strings.HasPrefix(k, "F_") {
 			sh.nonObj = true
 		}
 		for r := range s.roots {
@@ -556,18 +574,12 @@ func (ma *modAnalysis) region(fn *ssa.Function, in map[*ssa.BasicBlock]bool) *mo
 				if isRegAlloc(x) {
 					continue
 				}
-				for _, lf := range c.leaves(x.Type().Underlying().(*types.Pointer).Elem()) {
-					ms.fresh[ma.cellKey(lf.typ)] = true
-				}
+				ma.freshLeaves(ms, x.Type().Underlying().(*types.Pointer).Elem())
 				if at, ok := x.Type().Underlying().(*types.Pointer).Elem().Underlying().(*types.Array); ok {
-					for _, lf := range c.leaves(at.Elem()) {
-						ms.fresh[ma.cellKey(lf.typ)] = true
-					}
+					ma.freshLeaves(ms, at.Elem())
 				}
 			case *ssa.MakeSlice:
-				for _, lf := range c.leaves(x.Type().Underlying().(*types.Slice).Elem()) {
-					ms.fresh[ma.cellKey(lf.typ)] = true
-				}
+				ma.freshLeaves(ms, x.Type().Underlying().(*types.Slice).Elem())
 			case *ssa.MakeMap:
 				md, mv, mc := ma.mapKeys(x.Type())
 				ms.fresh[md], ms.fresh[mv], ms.fresh[mc] = true, true, true
@@ -578,9 +590,7 @@ func (ma *modAnalysis) region(fn *ssa.Function, in map[*ssa.BasicBlock]bool) *mo
 				if b, ok := call.Value.(*ssa.Builtin); ok {
 					switch b.Name() {
 					case "append":
-						for _, lf := range c.leaves(call.Args[0].Type().Underlying().(*types.Slice).Elem()) {
-							ms.fresh[ma.cellKey(lf.typ)] = true
-						}
+						ma.freshLeaves(ms, call.Args[0].Type().Underlying().(*types.Slice).Elem())
 					case "delete":
 						ma.recordMapWrite(ms, call.Args[0], in)
 					case "copy":
@@ -798,4 +808,22 @@ func (ei *escapeInfo) safeStore(st ssa.Instruction, obj ssa.Value) bool {
 		}
 	}
 	return true
+}
+
+func (ma *modAnalysis) fieldKey(fid int) string {
+	k, t, _ := ma.c.fieldKeyByID(fid)
+	ma.keyTypes[k] = t
+	ma.keyFids[k] = fid
+	return k
+}
+
+// freshLeaves records the arrays in which the cells of a freshly allocated value of type t live.
+func (ma *modAnalysis) freshLeaves(ms *modset, t types.Type) {
+	for _, lf := range ma.c.leaves(t) {
+		if len(lf.fids) > 0 {
+			ms.fresh[ma.fieldKey(lf.fids[len(lf.fids)-1])] = true
+		} else {
+			ms.fresh[ma.cellKey(lf.typ)] = true
+		}
+	}
 }
